@@ -19,13 +19,13 @@ var props = map[string]*PropDef{
 		Technique:  "structural",
 	},
 	"C18": {
-		Rules:      []string{"POOL-1", "POOL-2", "POOL-3", "GLOBAL-1", "ONCE-1", "DET-1", "INTERN-1", "CYCLE-1"},
+		Rules:      []string{"POOL-1", "POOL-2", "POOL-3", "GLOBAL-1", "ONCE-1", "DET-1", "INTERN-1", "CYCLE-1", "POOL-4", "ESCAPE-1"},
 		Decided:    "(in progress)",
 		NotDecided: "(in progress)",
 		Technique:  "structural",
 	},
 	"C12": {
-		Rules:      []string{"FORMAT-1", "WIDTH-1", "TABLE-ESC", "TXN-2", "DEPTH-1"},
+		Rules:      []string{"FORMAT-1", "WIDTH-1", "TABLE-ESC", "TXN-2", "DEPTH-1", "WS-1", "MATRIX"},
 		Decided:    "(in progress)",
 		NotDecided: "(in progress)",
 		Technique:  "structural",
@@ -43,13 +43,13 @@ var props = map[string]*PropDef{
 		Technique:  "structural",
 	},
 	"C03": {
-		Rules:      []string{"ANYPATH-1", "INTERN-1", "CASE-SYM"},
+		Rules:      []string{"ANYPATH-1", "INTERN-1", "CASE-SYM", "NUMCONV-1"},
 		Decided:    "(in progress)",
 		NotDecided: "(in progress)",
 		Technique:  "structural",
 	},
 	"C04": {
-		Rules:      []string{"CODEC-1", "FLAGSYM-1"},
+		Rules:      []string{"CODEC-1", "FLAGSYM-1", "ALIAS-1"},
 		Decided:    "(in progress)",
 		NotDecided: "(in progress)",
 		Technique:  "sibling agreement",
@@ -79,7 +79,7 @@ var props = map[string]*PropDef{
 		Technique:  "table evaluation + sink audit",
 	},
 	"C07": {
-		Rules:      []string{"NAMES-1", "BUF-1", "STALE-3", "FP-3", "FP-4", "UNWRITE-1"},
+		Rules:      []string{"NAMES-1", "BUF-1", "STALE-3", "FP-3", "FP-4", "UNWRITE-1", "POOL-4"},
 		Decided:    "(in progress)",
 		NotDecided: "(in progress)",
 		Technique:  "path-sensitive go/cfg dataflow",
@@ -97,25 +97,25 @@ var props = map[string]*PropDef{
 		Technique:  "path-sensitive go/cfg dataflow",
 	},
 	"C01": {
-		Rules:      []string{"MATRIX", "KIND-1", "DEPTH-1", "MAPCACHE-1", "TXN-1", "CASE-SYM"},
+		Rules:      []string{"MATRIX", "KIND-1", "DEPTH-1", "MAPCACHE-1", "TXN-1", "CASE-SYM", "NUMSTATE-1"},
 		Decided:    "(in progress)",
 		NotDecided: "(in progress)",
 		Technique:  "sibling matrix + table evaluation",
 	},
 	"C20": {
-		Rules:      []string{"DEPTH-1", "CYCLE-1", "PANIC-1", "TXN-1", "TXN-2"},
+		Rules:      []string{"DEPTH-1", "CYCLE-1", "PANIC-1", "TXN-1", "TXN-2", "NAMES-1"},
 		Decided:    "(in progress)",
 		NotDecided: "(in progress)",
 		Technique:  "path-sensitive go/cfg dataflow",
 	},
 	"C05": {
-		Rules:      []string{"STALE-1", "TXN-1", "TXN-2", "TXN-3", "NAMES-1", "BUF-1", "PEEK-1"},
+		Rules:      []string{"STALE-1", "TXN-1", "TXN-2", "TXN-3", "NAMES-1", "BUF-1", "PEEK-1", "NUMSTATE-1"},
 		Decided:    "(in progress)",
 		NotDecided: "(in progress)",
 		Technique:  "path-sensitive go/cfg dataflow",
 	},
 	"C06": {
-		Rules:      []string{"TXN-1", "TXN-2", "TXN-3"},
+		Rules:      []string{"TXN-1", "TXN-2", "TXN-3", "WS-1"},
 		Decided:    "a rejected WriteToken/WriteValue/AppendRaw leaves the abstract encoder state untouched on every path (commit protocol), the state machine and namespace set are transactional, scratch namespaces are balanced.",
 		NotDecided: "that the accepted token sequences are exactly the grammar's prefixes; formatting of the delivered bytes.",
 		Technique:  "path-sensitive go/cfg dataflow (atoms: mutated, error nil-ness, namespace validity, name position) with recomputed effect summaries",
